@@ -15,6 +15,8 @@
 //                 element ticked      <=> the model instance wrote in this cycle
 //               no other VALID elements in the output; a consumer activated by the map output ran in every
 //               cycle in which an element ticked or a valid element disappeared.
+//               Keys that entered the source key set without a valid element while the map was already primed are
+//               checked under the single id C10.late_valid_key_gets_instance (finding M1, notes/C10.md).
 #include "hk_ho.h"
 
 // One binary covers several configurations {NKEYS, BULK, NCYC, EXTRA_OPS, FMASK} (enumerated first, so shards split on them):
@@ -71,6 +73,9 @@ bool r_removed = false, r_readd = false, r_fresh = false, r_phantom = false, r_t
      r_wake_dropped = false, r_bcast = false, r_silent = false, r_slot_reuse = false, r_stale_invalid = false;
 bool ever_removed = false;
 bool had_state[MAXK];
+bool m_late[MAXK];        // key is in the late-valid situation (finding M1)
+bool g_src_ticked = false; // the source dictionary ticked in an earlier cycle: the map is primed
+bool ok_late = true, r_late_valid = false;
 
 inline Int cyc(DateTime now) { return (now - MIN_ST).count(); }
 
@@ -267,18 +272,38 @@ struct Checker {
         Int c = cyc(now);
         g_checks++;
         if (g_btick) { m_b = g_bv; m_b_valid = true; }
-        int n_exist = 0, n_valid = 0;
-        bool any_event = false;
+        int n_exist = 0, n_valid = 0, n_late_valid_out = 0;
+        bool any_event = false, any_action = false;
         const bool bound = m.valid() || m.bound();
         for (int k = 0; k < NK; k++) {
+            any_action |= (g_act[k] != A_NONE);
+            // "late-valid key" situation (finding M1, notes/C10.md): the key enters the source key set WITHOUT a valid
+            // element while the map is already primed (the source dictionary has ticked in an earlier cycle); it stays
+            // in that situation until the key is removed.  Every check for such a key goes to one dedicated assert id.
+            if (g_act[k] == A_PHANTOM) m_late[k] = g_src_ticked;
+            if (g_act[k] == A_REMOVE) m_late[k] = false;
+            const bool late = m_late[k];
             bool removed_now = (g_act[k] == A_REMOVE) && m_inst[k].out_valid;   // a valid element disappears
             bool wrote = step_instance(k, c);
             const Inst &i = m_inst[k];
+            bool has = bound && m.contains(Int{k});   // concrete: shape only
+            bool v = false;
+            if (late) {
+                // what the statement demands: once the source element is valid, the key has an instance whose output
+                // is the isolated function's
+                if (i.out_valid) r_late_valid = true;
+                if (has) {
+                    auto e = m.at(Int{k});
+                    v = e.valid();
+                    if (v && i.out_valid) ok_late &= (e.value() == i.out);
+                }
+                ok_late &= (v == i.out_valid);
+                if (v) n_late_valid_out++;
+                continue;
+            }
             any_event |= wrote | removed_now;
             if (i.exists) n_exist++;
             if (i.out_valid) n_valid++;
-            bool has = bound && m.contains(Int{k});   // concrete: shape only
-            bool v = false;
             if (has) {
                 auto e = m.at(Int{k});
                 v = e.valid();
@@ -291,9 +316,10 @@ struct Checker {
             ok_valid &= (v == i.out_valid);
             if (has && !i.exists) r_stale_invalid = true;
         }
+        if (any_action) g_src_ticked = true;
         int vsz = 0;
         if (bound) for (auto key : m.valid_keys()) { (void)key; vsz++; }
-        ok_foreign &= (vsz == n_valid);
+        ok_foreign &= (vsz - n_late_valid_out == n_valid);
         if (any_event) ok_notified &= (g_obs_cycle == c);
         if (n_valid >= 3) r_three = true;
         if (n_valid >= 5) r_five = true;
@@ -348,6 +374,7 @@ extern "C" int harness_main() {
     verif_assert(ok_value, "C10.element_value_equals_isolated_instance");
     verif_assert(ok_ticks, "C10.element_ticks_iff_instance_wrote");
     verif_assert(ok_notified, "C10.consumer_notified");
+    verif_assert(ok_late, "C10.late_valid_key_gets_instance");
     if (r_removed) verif_reach("key_removed");
     if (r_readd) verif_reach("key_removed_and_readded_same_cycle");
     if (r_fresh) verif_reach("key_with_state_removed_and_added_later");
@@ -359,6 +386,7 @@ extern "C" int harness_main() {
     if (r_wake_dropped) verif_reach("removed_with_pending_wakeup");
     if (r_bcast) verif_reach("broadcast_tick_alone");
     if (r_silent) verif_reach("live_key_without_valid_output");
+    if (r_late_valid) verif_reach("late_valid_key_after_map_primed");
     if (r_stale_invalid) verif_reach("observed_stale_invalid_element_for_absent_key");
     verif_log("obs_runs", g_obs_runs);
     verif_reach("end");
